@@ -1,6 +1,8 @@
 #!/usr/bin/env python3
 # Behaviour-preserving refactorings (written by independent sub-agents) must leave every check silent.
-#   tool/refactor_check.py <dir with r*.diff>...        (applies each patch to /repo, runs all quick checks, undoes it)
+#   tool/refactor_check.py [<dir with *.diff>...]       (applies each patch to /repo, runs all quick checks, undoes it)
+# Without arguments the committed negative-control corpus refactors/R1 and refactors/R2 is used (118 patches written by
+# forty independent sub-agents, three per property and round; NOTES.md of each agent is stored next to its patches).
 import glob, json, os, re, subprocess, sys
 from concurrent.futures import ThreadPoolExecutor
 V = os.path.dirname(os.path.dirname(os.path.abspath(__file__)))
@@ -12,8 +14,8 @@ def sh(cmd, **kw):
 
 
 bad = 0
-for d in sys.argv[1:]:
-    for patch in sorted(glob.glob(os.path.join(d, "r*.diff"))):
+for d in (sys.argv[1:] or [os.path.join(V, "refactors", "R1"), os.path.join(V, "refactors", "R2")]):
+    for patch in sorted(glob.glob(os.path.join(d, "*.diff"))):
         if sh("git -C /repo status --porcelain --untracked-files=no").stdout.strip():
             print("refusing: /repo dirty"); sys.exit(2)
         if sh("git -C /repo apply --check %s" % patch).returncode:
